@@ -210,3 +210,61 @@ PROPS["C17"] = dict(
     floor=20,
     stages=[Stage("c17", variant="rel"), Stage("c17", variant="chk", args=["--n", "2"])],
 )
+
+PROPS["C18"] = dict(
+    level="exploration",
+    rule="trees of 2..2^13 (thorough 2^15) leaves x 6 hashers: root, serial node array and every opened path vs the recursive "
+         "pairwise hash; every single opening verifies; batch openings for EVERY non-empty subset up to 8 leaves (thorough 12; "
+         "algebraic hashers 4/8) and structured + random subsets above, each in sorted, reversed, shuffled and interleaved "
+         "order: prove_batch (leaves in caller order), get_root == root, verify_batch, VectorCommitment facade, node count == "
+         "definition, from_single_proofs == prove_batch, into_openings == single openings in caller order, serialization "
+         "round trip; serial build, overflow-check build, concurrent build at 3 (8) thread counts with root digests compared "
+         "across all runs by the offline checker; TSan; Miri; distinct = (hasher, leaves)",
+    assumptions=["H::merge itself is the pairwise hash (its definition is C15/C16's subject)",
+                 "leaves are pairwise distinct digests (hashes of distinct strings)",
+                 "Miri on the concurrent build runs without borrow tracking (DESIGN.md section 2)"],
+    floor=30,
+    post=compare_digests,
+    stages=[Stage("c18", variant="rel"), Stage("c18", variant="chk", args=["--maxk", "9"])]
+           + [Stage("c18", variant="par", threads=t, tiers=("quick", "thorough") if t in (3, 6, 16) else ("thorough",)) for t in (1, 2, 3, 5, 6, 7, 8, 16)]
+           + [Stage("c18_par_small", kind="tsan", threads=6, timeout=(900, 1800), tiers=("quick",)),
+              Stage("c18", kind="tsan", threads=6, args=["--maxk", "12"], timeout=(900, 1800), tiers=("thorough",)),
+              Stage("c18", kind="miri", args=["--maxk", "3"], miri_flags=MIRI_SERIAL, timeout=(1800, 3600), tiers=("thorough",)),
+              Stage("c18_par_small", kind="miri", variant="par", miri_flags=MIRI_PAR, env={"FEATURES": "concurrent"},
+                    threads=3, timeout=(1800, 3600), tiers=("thorough",))],
+)
+
+PROPS["C19"] = dict(
+    level="exploration",
+    rule="(1) honest single and batch openings of trees with 2..2^8 (thorough 2^11) distinct leaves x 6 hashers; every single "
+         "substitution (leaf, each path / proof node, index -> every other in-range index, out-of-range and duplicated "
+         "indexes adjacent or not, swapped indexes / nodes / node vectors, missing leaf, dropped opening, depth, root) must "
+         "be rejected; (2) structurally mutated and fully random batch proofs (depth 0..255, ragged nodes, huge indexes, "
+         "leaf-count mismatches) and mutated encodings: get_root, verify_batch, into_openings and decode-then-use must "
+         "return without panic / abort / hang in isolated workers under the release, overflow-check and ASan builds; "
+         "evaluation = one substitution or malformed case",
+    assumptions=["leaves are pairwise distinct, so a different index or leaf can never legitimately verify",
+                 "surplus data that verification never reads (an extra trailing leaf or proof node) is not judged: the "
+                 "property speaks about data that differs from the tree's"],
+    floor=1000,
+    stages=[Stage("c19_subst", variant="rel"), Stage("c19_subst", variant="chk"),
+            Stage("c19_malformed", variant="rel", kind="sharded", n=(60000, 3000000), mem_gb=4),
+            Stage("c19_malformed", variant="chk", kind="sharded", n=(30000, 600000), mem_gb=4),
+            Stage("c19_malformed", variant="asan", kind="sharded", n=(10000, 300000), mem_gb=None, env=ASAN_ENV)],
+)
+
+PROPS["C20"] = dict(
+    level="exploration",
+    rule="random histories (<= 14 ops: reseed, draw base/quadratic/cubic, draw_integers(k in {0,1,2,..,255,999,1000,1001+}, "
+         "2^j for j in 1..63, nonce), check_leading_zeros on 8 consecutive nonces) after new(seed of 0..20 "
+         "representation-biased elements), 11 hasher x field instantiations; two real coins fed the same history and an "
+         "executable model of the documented seed/counter state machine must agree at every step; drawn elements canonical, "
+         "integer draws exactly k values below 2^j, k > 1000 is the documented error; a real coin reseeded with a different "
+         "digest must draw differently; evaluation = one history step; distinct = histories",
+    assumptions=["the model calls the same Hasher trait functions (hash_elements, merge, merge_with_int) whose definitions are C15/C16's subject",
+                 "a history ends at the first documented draw_integers error (state afterwards is undocumented)",
+                 "two different digests giving the same next quadratic draw has probability < 2^-120"],
+    floor=500,
+    stages=[Stage("c20", variant="rel"), Stage("c20", variant="chk", args=["--n", "200"]),
+            Stage("c20", kind="miri", args=["--n", "6"], miri_flags=MIRI_SERIAL, timeout=(900, 1800), tiers=("thorough",))],
+)
